@@ -111,3 +111,57 @@ Proof.
     + apply map_nonneg; auto.
     + apply map_assoc_mono; auto.
 Qed.
+
+(* ------------------------------------------------------------------ *)
+(* Untouched positions survive a round trip through a map and its inverse. *)
+Lemma wf_before_lt rest : forall lo p,
+  wf_ranges lo rest -> all_before rest p -> lo < p -> lo < p + total_diff rest.
+Proof.
+  induction rest as [|[[s x] y] r IH]; intros lo p Hwf Hb Hlt; unfold total_diff; simpl; [lia|].
+  destruct Hwf as (H1 & H2 & H3 & H4). destruct Hb as [[Hb0 Hb1] Hb2].
+  specialize (IH (s + x) p H4 Hb2 Hb1). unfold total_diff in IH. lia.
+Qed.
+
+Lemma norm_app pre : forall post d, norm d (pre ++ post) = norm d pre ++ norm (d - total_diff pre) post.
+Proof.
+  induction pre as [|[[s x] y] pre IH]; intros post d; simpl.
+  - f_equal. unfold total_diff; simpl. lia.
+  - f_equal. rewrite IH. f_equal. f_equal. unfold total_diff; simpl. lia.
+Qed.
+
+Lemma total_diff_norm pre : forall d, total_diff (norm d pre) = - total_diff pre.
+Proof.
+  induction pre as [|[[s x] y] pre IH]; intros d; unfold total_diff in *; simpl; [lia|].
+  rewrite IH. lia.
+Qed.
+
+Lemma all_before_norm pre : forall lo d p,
+  wf_ranges lo pre -> all_before pre p -> all_before (norm d pre) (p - d + total_diff pre).
+Proof.
+  induction pre as [|[[s x] y] pre IH]; intros lo d p Hwf Hb; [simpl; auto|].
+  simpl in Hwf, Hb. destruct Hwf as (H1 & H2 & H3 & H4). destruct Hb as [[Hb0 Hb1] Hb2].
+  cbn [norm all_before].
+  pose proof (wf_before_lt pre (s + x) p H4 Hb2 Hb1) as Hlt.
+  match goal with |- context[total_diff ?l] => lazymatch l with (_ :: _) =>
+    assert (Etd : total_diff l = (y - x) + total_diff pre) by (unfold total_diff; simpl; lia);
+    rewrite !Etd end end.
+  split; [split; lia|].
+  replace (p - d + (y - x + total_diff pre)) with (p - (d + (x - y)) + total_diff pre) by lia.
+  apply (IH (s + x)); auto.
+Qed.
+
+Theorem map_invert_roundtrip_outside pre post p a b :
+  wf_ranges 0 pre -> all_before pre p ->
+  (match post with [] => True | (s, _, _) :: _ => p < s end) ->
+  let m := {| ranges := pre ++ post; inverted := false |} in
+  map (invert m) (map m p a) b = p.
+Proof.
+  intros Hwf Hb Hp m. unfold m. rewrite rule_outside by auto.
+  unfold map, invert; cbn [ranges inverted negb]. unfold map_result; cbn [ranges inverted].
+  rewrite map_go_inv. rewrite norm_app.
+  pose proof (rule_outside (norm 0 pre) (norm (0 - total_diff pre) post) (p + total_diff pre) b) as R.
+  unfold map, map_result in R; cbn [ranges inverted] in R. rewrite R.
+  - rewrite total_diff_norm. lia.
+  - replace (p + total_diff pre) with (p - 0 + total_diff pre) by lia. apply (all_before_norm pre 0); auto.
+  - destruct post as [|[[s x] y] post]; simpl; auto. lia.
+Qed.
